@@ -713,6 +713,68 @@ def _r7_sentinels(repo, rep, cls):
     if r7.sites == 0 and not r7.findings:
         raise AnalysisError('no test of the sentinel attribute(s) %s found'
                             % sorted(sent))
+    # parameters with the same convention: default None = not given, any
+    # string (also '') = given.  A parameter is such a sentinel when it has
+    # the default None and flows into a sentinel attribute / is compared
+    # with None somewhere in the class; every truth test of it is wrong.
+    for m in cls.methods.values():
+        dfl = m.param_defaults()
+        opt = {p_ for p_, d_ in dfl.items()
+               if isinstance(d_, ast.Constant) and d_.value is None}
+        if not opt:
+            continue
+        none_tested = set()
+        stored = set()
+        for n in walk_no_nested(m.node):
+            if isinstance(n, ast.Compare) and len(n.ops) == 1 and \
+                    isinstance(n.ops[0], (ast.Is, ast.IsNot)) and \
+                    isinstance(n.left, ast.Name) and n.left.id in opt and \
+                    isinstance(n.comparators[0], ast.Constant) and \
+                    n.comparators[0].value is None:
+                none_tested.add(n.left.id)
+            if isinstance(n, ast.Assign) and len(n.targets) == 1 and \
+                    isinstance(n.targets[0], ast.Attribute) and \
+                    isinstance(n.value, ast.Name) and n.value.id in opt and \
+                    n.targets[0].attr.lstrip('_') == n.value.id:
+                stored.add(n.value.id)
+        sentinels = none_tested | stored
+        if not sentinels:
+            continue
+
+        def name_truth(test, out):
+            if isinstance(test, ast.BoolOp):
+                for v in test.values:
+                    name_truth(v, out)
+            elif isinstance(test, ast.UnaryOp) and \
+                    isinstance(test.op, ast.Not):
+                name_truth(test.operand, out)
+            elif isinstance(test, ast.Name):
+                out.append(test)
+        for n in walk_no_nested(m.node):
+            tests = []
+            if isinstance(n, (ast.If, ast.While, ast.IfExp)):
+                tests.append(n.test)
+            elif isinstance(n, ast.Assert):
+                tests.append(n.test)
+            elif isinstance(n, ast.BoolOp):
+                tests.append(n)
+            for t in tests:
+                uses = []
+                name_truth(t, uses)
+                for u in uses:
+                    if u.id in sentinels:
+                        r7.sites += 1
+                        r7.ob(False, '%s|%s' % (m.qualname, norm(t, 50)))
+                        rep.finding(
+                            r7, m.qualname, norm(t, 60),
+                            'truthiness-of-sentinel', VM, u.lineno,
+                            'the parameter %s means "not given" only when '
+                            'it is None; the string it may hold can be '
+                            'empty (%s=\'\'), so a truth test treats a '
+                            'given value as absent' % (u.id, u.id))
+        for p_ in sorted(none_tested):
+            r7.sites += 1
+            r7.ob(True, '%s|%s is None' % (m.qualname, p_))
 
 
 def _notation_rule(repo, rep):
